@@ -538,43 +538,57 @@ class DocumentMapper:
         end_index = start_index + length
         return self._resolve_runs_at_range(start_index, end_index)
 
+    def _offset_in_run(self, span: TextSpan) -> int:
+        """
+        Offset of a real span's first character inside its run. A formatted run that contains a
+        line break is indexed as several spans pointing at the same run; offsets handed to
+        _split_run_at_index must be relative to the run, not to the span.
+        """
+        return sum(len(s.text) for s in self.spans if s.run is span.run and s.start < span.start)
+
     def _resolve_runs_at_range(self, start_idx: int, end_idx: int) -> List[Run]:
         affected_spans = [s for s in self.spans if s.end > start_idx and s.start < end_idx]
         if not affected_spans:
             return []
 
-        working_runs = [s.run for s in affected_spans if s.run is not None]
+        working_runs: List[Run] = []
+        for s in affected_spans:
+            if s.run is not None and not any(s.run is r for r in working_runs):
+                working_runs.append(s.run)
         if not working_runs:
             return []
 
         dom_modified = False
 
-        # 1. Start Split
         first_real_span = next((s for s in affected_spans if s.run is not None), None)
-        start_split_adjustment = 0
-
-        if first_real_span:
-            local_start = start_idx - first_real_span.start
-            if local_start > 0:
-                idx_in_working = 0
-                _, right_run = self._split_run_at_index(working_runs[idx_in_working], local_start)
-                working_runs[idx_in_working] = right_run
-                dom_modified = True
-                start_split_adjustment = local_start
-
-        # 2. End Split
         last_real_span = next((s for s in reversed(affected_spans) if s.run is not None), None)
 
+        # Offsets inside the first / last run, computed before any split changes the spans
+        local_start = 0
+        local_end = 0
+        is_same_run = False
+        if first_real_span:
+            local_start = self._offset_in_run(first_real_span) + max(0, start_idx - first_real_span.start)
         if last_real_span:
-            is_same_run = first_real_span is last_real_span
-            run_to_split = working_runs[-1]
             overlap_end = min(last_real_span.end, end_idx)
-            local_end = overlap_end - last_real_span.start
+            local_end = self._offset_in_run(last_real_span) + (overlap_end - last_real_span.start)
+            is_same_run = first_real_span is not None and first_real_span.run is last_real_span.run
 
+        # 1. Start Split
+        start_split_adjustment = 0
+        if first_real_span and local_start > 0:
+            _, right_run = self._split_run_at_index(working_runs[0], local_start)
+            working_runs[0] = right_run
+            dom_modified = True
+            start_split_adjustment = local_start
+
+        # 2. End Split
+        if last_real_span:
+            run_to_split = working_runs[-1]
             if is_same_run and start_split_adjustment > 0:
                 local_end -= start_split_adjustment
 
-            if 0 < local_end < len(run_to_split.text):
+            if 0 < local_end < len(get_run_text(run_to_split)):
                 left_run, _ = self._split_run_at_index(run_to_split, local_end)
                 working_runs[-1] = left_run
                 dom_modified = True
@@ -595,7 +609,7 @@ class DocumentMapper:
             if span.run is None:
                 pass
             else:
-                offset = index - span.start
+                offset = self._offset_in_run(span) + (index - span.start)
                 left, _ = self._split_run_at_index(span.run, offset)
                 return left
 
